@@ -236,7 +236,16 @@ func writeMessageFieldUnmarshaller(name string, typ FieldType, w *iohelp.ErrorWr
 		writeLineWithTabs(w, "\t}", depth)
 		ln := getLineWithTabs(settings.typeUnmarshallers[typ.Map.Key], depth+1, "&"+depthName("k", depth))
 		w.SafeWrite([]byte(strings.Replace(ln, "=", ":=", 1)))
-		writeMessageFieldUnmarshaller("("+name+")["+depthName("k", depth)+"]", typ.Map.Value, w, settings, depth+1)
+		if typ.Map.Value.Array != nil || typ.Map.Value.Map != nil {
+			// a container value is filled in a local and stored afterwards: reading
+			// m[k] back while filling it yields the zero value when k is NaN
+			tmp := depthName("mv", depth)
+			writeLineWithTabs(w, "var "+tmp+" "+typ.Map.Value.goString(settings), depth+1)
+			writeStructFieldUnmarshaller("&"+tmp, typ.Map.Value, w, settings, depth+1)
+			writeLineWithTabs(w, "(%RECV)["+depthName("k", depth)+"] = "+tmp, depth+1, name)
+		} else {
+			writeMessageFieldUnmarshaller("("+name+")["+depthName("k", depth)+"]", typ.Map.Value, w, settings, depth+1)
+		}
 		writeLineWithTabs(w, "}", depth)
 	} else {
 		simpleTyp := typ.Simple
